@@ -60,6 +60,26 @@ E = [
  ("B10", "benign", [], D+"lz77.go", "\t\tif uint32(dist-1) < uint32(historySize) {", "\t\tif dist >= 1 && dist <= uint32(historySize) {"),
  ("B11", "benign", [], Z+"reader.go", "\tif _, err := io.ReadFull(z.r, z.scratch[0:4]); err != nil {\n\t\tif err == io.EOF {\n\t\t\terr = io.ErrUnexpectedEOF\n\t\t}\n\t\tz.err = err\n\t\treturn n, z.err\n\t}", "\tif _, err := io.ReadFull(z.r, z.scratch[0:4]); err != nil {\n\t\tz.err = err\n\t\tif err == io.EOF {\n\t\t\tz.err = io.ErrUnexpectedEOF\n\t\t}\n\t\treturn n, z.err\n\t}"),
  ("B12", "benign", [], D+"dynamic.go", "\t\tif last && idx == len(c.tokens) {\n\t\t\tc.buf.flushLastByte()\n\t\t}", "\t\tif idx == len(c.tokens) && last {\n\t\t\tc.buf.flushLastByte()\n\t\t}"),
+ ("B13", "benign", [], G+"gzip.go", "\t\tif z.Extra != nil {\n\t\t\tz.buf[3] |= 0x04\n\t\t}", "\t\tif z.Extra != nil {\n\t\t\tz.buf[3] |= flagExtra\n\t\t}"),
+ ("B14", "benign", [], D+"writer.go", "\tw.err = w.lc.Flush()\n\treturn w.err\n}", "\tif err := w.lc.Flush(); err != nil {\n\t\tw.err = err\n\t\treturn err\n\t}\n\treturn nil\n}"),
+ ("B15", "benign", [], D+"writer.go", "\tw.err = w.lc.Close()\n\tif w.err != nil {\n\t\treturn w.err\n\t}\n\tw.err = errWriterClosed\n\treturn nil", "\tif err := w.lc.Close(); err != nil {\n\t\tw.err = err\n\t\treturn err\n\t}\n\tw.err = errWriterClosed\n\treturn nil"),
+ ("B16", "benign", [], F+"reader.go", "\t\tif f.writePos-f.readPos > 0 {\n\t\t\tnum := copy(b,", "\t\tif f.writePos > f.readPos {\n\t\t\tnum := copy(b,"),
+ ("B17", "benign", [], F+"reader.go", "\t\t_, err = f.rBuf.Peek(int(state.bitsLen/8) + 1)", "\t\tneed := int(state.bitsLen/8) + 1\n\t\t_, err = f.rBuf.Peek(need)"),
+ ("B18", "benign", [], D+"dynamic.go", "\terr = w.compressBlock(true, false)\n\tif err != nil {\n\t\treturn err\n\t}\n\t// write one zero", "\tif err = w.compressBlock(true, false); err != nil {\n\t\treturn\n\t}\n\t// write one zero"),
+ ("B19", "benign", [], F+"header.go", "\tfor i := range t.ShortCodeLookup[:copySize] {\n\t\tt.ShortCodeLookup[i] = 0\n\t}", "\tfor i := 0; i < copySize; i++ {\n\t\tt.ShortCodeLookup[i] = 0\n\t}"),
+ ("B20", "benign", [], F+"reader.go", "\tif err == errInvalidBlock || err == errInvalidSymbol || err == errInvalidLookBack {\n\t\treturn true\n\t}\n\treturn false", "\tswitch err {\n\tcase errInvalidBlock, errInvalidSymbol, errInvalidLookBack:\n\t\treturn true\n\t}\n\treturn false"),
+ ("B21", "benign", [], F+"decode_amd64.go", "\t\t\tswitch errno {\n\t\t\tcase errorNoInvalidBlock:\n\t\t\t\terr = errInvalidBlock\n\t\t\tcase errorNoInvalidSymbol:\n\t\t\t\terr = errInvalidSymbol\n\t\t\tcase errorNoInvalidLookback:\n\t\t\t\terr = errInvalidLookBack\n\t\t\tcase errorNoOutOverflow:\n\t\t\t\terr = errOutputOverflow\n\t\t\tdefault:\n\t\t\t\terr = errInvalidBlock\n\t\t\t}", "\t\t\tif errno == errorNoInvalidSymbol {\n\t\t\t\terr = errInvalidSymbol\n\t\t\t} else if errno == errorNoInvalidLookback {\n\t\t\t\terr = errInvalidLookBack\n\t\t\t} else if errno == errorNoOutOverflow {\n\t\t\t\terr = errOutputOverflow\n\t\t\t} else {\n\t\t\t\terr = errInvalidBlock\n\t\t\t}"),
+ ("B22", "benign", [], F+"reader.go", "\trr.r = r\n\tif ur, ok := r.(*bufio.Reader); ok {\n\t\t// bufio.NewReader would put a second buffer in front of a small one\n\t\trr.rBuf = ur\n\t} else {\n\t\trr.rBuf = bufio.NewReader(r)\n\t}\n\treturn rr", "\trr.Reset(r, nil)\n\treturn rr"),
+ ("B23", "benign", [], D+"lz77.go", "\t\ttokens = append(tokens, newToken(lit, InvalidDist, 0))\n\t\thist.literalCodes[lit]++\n\t\tif len(tokens) > maxToken {\n\t\t\treturn offset, tokens\n\t\t}\n\t}\n\tif flush {", "\t\ttokens = append(tokens, newToken(lit, InvalidDist, 0))\n\t\thist.literalCodes[lit] += 1\n\t\tif len(tokens) > maxToken {\n\t\t\treturn offset, tokens\n\t\t}\n\t}\n\tif flush {"),
+ ("B24", "benign", [], D+"huffmanonly.go", "func (h *huffmanOnly) Accumulate(data []byte) (n int, trigger bool) {\n", "func (h *huffmanOnly) Accumulate(data []byte) (n int, trigger bool) {\n\tif len(data) == 0 {\n\t\treturn 0, false\n\t}\n"),
+ ("B25", "benign", [], G+"ungzip.go", "\t\tif digest != z.digest || size != z.size {\n\t\t\tz.err = ErrChecksum\n\t\t\treturn n, z.err\n\t\t}", "\t\tif digest != z.digest {\n\t\t\tz.err = ErrChecksum\n\t\t\treturn n, z.err\n\t\t}\n\t\tif size != z.size {\n\t\t\tz.err = ErrChecksum\n\t\t\treturn n, z.err\n\t\t}"),
+ ("B26", "benign", [], Z+"writer.go", "\tz.err = nil\n\tz.scratch = [4]byte{}\n\tz.wroteHeader = false", "\tz.wroteHeader = false\n\tz.scratch = [4]byte{}\n\tz.err = nil"),
+ ("B27", "benign", [], D+"level_amd64.go", "func (c *level1context) generate(flush bool, input []byte, processed int, offset int, tokens []token, maxToken int) (nOffset int, ntokens []token) {\n\tif cpu.ArchLevel < 3 || len(tokens)+safeLZ77Boundary > cap(tokens) {", "func (c *level1context) generate(flush bool, input []byte, processed int, offset int, tokens []token, maxToken int) (nOffset int, ntokens []token) {\n\tuseAsm := cpu.ArchLevel >= 3 && len(tokens)+safeLZ77Boundary <= cap(tokens)\n\tif !useAsm {"),
+ ("B28", "benign", [], Z+"reader.go", "\tif z.decompressor == nil || haveDict {\n\t\t// Only the inflater made by NewReaderDict honours a dictionary.\n\t\tif haveDict {\n\t\t\tz.decompressor = flate.NewReaderDict(z.r, dict)\n\t\t} else {\n\t\t\tz.decompressor = flate.NewReader(z.r)\n\t\t}\n\t} else {\n\t\tz.decompressor.(flate.Resetter).Reset(z.r, nil)\n\t}", "\tswitch {\n\tcase haveDict:\n\t\t// Only the inflater made by NewReaderDict honours a dictionary.\n\t\tz.decompressor = flate.NewReaderDict(z.r, dict)\n\tcase z.decompressor == nil:\n\t\tz.decompressor = flate.NewReader(z.r)\n\tdefault:\n\t\tz.decompressor.(flate.Resetter).Reset(z.r, nil)\n\t}"),
+ ("B29", "benign", [], D+"bitbuf.go", "func (b *BitBuf) reset() {\n\tb.idx = 0\n\tb.bits = 0\n\tb.bitLen = 0\n}", "func (b *BitBuf) reset() {\n\tb.idx, b.bits, b.bitLen = 0, 0, 0\n}"),
+ ("B30", "benign", [], G+"gzip.go", "\tif z.err != nil {\n\t\treturn z.err\n\t}\n\tif z.closed {\n\t\treturn nil\n\t}\n\tz.closed = true", "\tif z.err != nil {\n\t\treturn z.err\n\t}\n\tif !z.closed {\n\t\tz.closed = true\n\t} else {\n\t\treturn nil\n\t}"),
+ ("B31", "benign", [], D+"huffmanonly.go", "\t\tif num == h.offset && final {\n\t\t\th.buf.flushLastByte()\n\t\t}", "\t\tif final {\n\t\t\tif num == h.offset {\n\t\t\t\th.buf.flushLastByte()\n\t\t\t}\n\t\t}"),
+ ("B32", "benign", [], F+"huffcode.go", "\tif codeListLen == 0 {\n\t\tfor i := range t.shortCodeLookup {\n\t\t\tt.shortCodeLookup[i] = 0\n\t\t}\n\t\treturn\n\t}", "\tif codeListLen == 0 {\n\t\tt.shortCodeLookup = [1 << 12]uint32{}\n\t\treturn\n\t}"),
 ]
 
 def sh(cmd, cwd=None):
